@@ -28,7 +28,9 @@ def parse(rel):
     p = os.path.join(REPO, rel)
     with open(p, encoding='utf8') as f:
         src = f.read()
-    return ast.parse(src, p), src
+    tree = ast.parse(src, p)
+    tree._verif_rel = rel            # lets find_func follow a definition that moved (see _runtime_def)
+    return tree, src
 
 
 def coq_str(s):
@@ -46,14 +48,48 @@ def coq_list(items):
 def find_class(tree, name):
     for n in ast.walk(tree):
         if isinstance(n, ast.ClassDef) and n.name == name:
+            n._verif_rel = getattr(tree, '_verif_rel', None)
+            n._verif_cls = name
             return n
     raise Shape('class %s not found' % name)
+
+
+def _runtime_def(node, name):
+    """the definition of function `name` as the *running* module / class of `node` resolves it today: a method
+    inherited from a (private) base class, or a function moved to another module and re-exported"""
+    rel = getattr(node, '_verif_rel', None)
+    if not rel:
+        return None
+    try:
+        owner = rt(rel[:-3].replace('/', '.'))
+        if getattr(node, '_verif_cls', None):
+            owner = getattr(owner, node._verif_cls)
+        obj = owner.__dict__.get(name) if isinstance(owner, type) else getattr(owner, name)
+        if obj is None and isinstance(owner, type):
+            for k in owner.__mro__[1:]:
+                if name in k.__dict__:
+                    obj = k.__dict__[name]
+                    break
+        if isinstance(obj, (staticmethod, classmethod)):
+            obj = obj.__func__
+        if isinstance(obj, property):
+            obj = obj.fget
+        if obj is None:
+            return None
+        return ast_of(obj)[0]
+    except Shape:
+        return None
+    except Exception:
+        return None
 
 
 def find_func(tree, name):
     for n in ast.walk(tree):
         if isinstance(n, (ast.FunctionDef,)) and n.name == name:
             return n
+    n = _runtime_def(tree, name)
+    if n is not None:
+        return n
     raise Shape('function %s not found' % name)
 
 
